@@ -289,6 +289,42 @@ func partitionShareRace(t *testing.T, w *ndWriter, first int) {
 				mu.Unlock()
 			}
 			start := make(chan struct{})
+			startAdd := start
+			// the first iterations force the overlap instead of sampling it: a partition's own mutex is held (its Acquire is
+			// parked while it emits its in-flight sample), SetLimit is started and stalls at that partition's share, then
+			// AddPartition is started, then the partition is let go
+			held := it < 24
+			var resume chan struct{}
+			heldWait := func() {}
+			if held {
+				parked := make(chan struct{})
+				resume = make(chan struct{})
+				startAdd = make(chan struct{})
+				var once int32
+				s.reg.Park = func() {
+					if atomic.CompareAndSwapInt32(&once, 0, 1) {
+						close(parked)
+						<-resume
+					}
+				}
+				heldDone := make(chan struct{})
+				go func() {
+					defer close(heldDone)
+					if s.lookup != nil {
+						s.lobj["p0"].Acquire()
+						s.lobj["p0"].Release()
+					} else {
+						s.pobj["p0"].Acquire()
+						s.pobj["p0"].Release()
+					}
+				}()
+				select {
+				case <-parked:
+				case <-time.After(time.Second):
+					t.Fatal("share race: the partition's Acquire did not reach its sample listener")
+				}
+				heldWait = func() { <-heldDone }
+			}
 			var wg sync.WaitGroup
 			wg.Add(2)
 			go func() {
@@ -300,7 +336,7 @@ func partitionShareRace(t *testing.T, w *ndWriter, first int) {
 			}()
 			go func() {
 				defer wg.Done()
-				<-start
+				<-startAdd
 				ev(J{"t": "b", "id": 2, "op": J{"op": "add", "obj": "p2"}, "ok": true, "res": J{"ok": true}})
 				var ok bool
 				if s.lookup != nil {
@@ -311,7 +347,19 @@ func partitionShareRace(t *testing.T, w *ndWriter, first int) {
 				ev(J{"t": "e", "id": 2, "op": J{"op": ""}, "ok": ok, "res": J{"ok": ok}})
 			}()
 			close(start)
+			if held {
+				time.Sleep(2 * time.Millisecond)
+				close(startAdd)
+				time.Sleep(2 * time.Millisecond)
+				close(resume)
+			}
 			wg.Wait()
+			heldWait()
+			if held {
+				s.reg.mu.Lock()
+				s.reg.Park = nil
+				s.reg.mu.Unlock()
+			}
 			limit, busy := s.totals()
 			share := func(num int) int {
 				x := (limit*num + 15) / 16
@@ -325,7 +373,7 @@ func partitionShareRace(t *testing.T, w *ndWriter, first int) {
 			if mismatch {
 				bad++
 			}
-			if mismatch && bad <= 20 || it%300 == 0 {
+			if mismatch && bad <= 20 || it%300 == 0 || held {
 				w.write(J{"t": "reset", "trace": k, "cfg": cfg, "id": 0, "op": J{"op": ""}, "ok": true, "res": J{"ok": true}})
 				for _, e := range events {
 					e["trace"] = k
